@@ -170,6 +170,82 @@ func main() {
 		}()
 	}
 	wg.Wait()
+	// histories, one call after the other in this process: every ordered pair of (password, salt1, salt2) triples
+	// from a 2x2x2 alphabet that differ in exactly one component. The second answer must be what the verifier of
+	// the second triple accepts (anything the first call left behind - stretched passwords, group constants -
+	// must be remembered under a name that tells the two triples apart), and the answer computed for the other
+	// password must still be rejected.
+	{
+		g := groups[0]
+		pws := []string{passwords[0], passwords[1]}
+		s1s := [][]byte{[]byte("saltsalt"), []byte("other-s1")}
+		s2s := [][]byte{[]byte("SALT2xyz"), []byte("other-s2")}
+		type tr struct{ p, a, b int }
+		var trs []tr
+		for p := 0; p < 2; p++ {
+			for a := 0; a < 2; a++ {
+				for b := 0; b < 2; b++ {
+					trs = append(trs, tr{p, a, b})
+				}
+			}
+		}
+		ask := func(t tr, answerPw string) (bool, string) {
+			v := verifier(g, pws[t.p], [2][]byte{s1s[t.a], s2s[t.b]})
+			b := big.NewInt(13)
+			ap := &telegram.AccountPassword{HasPassword: true, SRPID: 77, SRPB: pad256(v.B(b).Bytes()),
+				CurrentAlgo: &telegram.PasswordKdfAlgoSHA256SHA256PBKDF2HMACSHA512iter100000SHA256ModPow{Salt1: s1s[t.a], Salt2: s2s[t.b], G: int32(g.G), P: g.P.Bytes()}}
+			var res telegram.InputCheckPasswordSRP
+			var err error
+			if pn, pm, fr := vr.Try(func() { res, err = callWithA(answerPw, ap, pad256(big.NewInt(11).Bytes())) }); pn {
+				return false, "panic: " + pm + " in " + fr
+			}
+			if err != nil {
+				return false, "error: " + err.Error()
+			}
+			o, ok := res.(*telegram.InputCheckPasswordSRPObj)
+			if !ok {
+				return false, fmt.Sprintf("answer is %T", res)
+			}
+			return v.Check(o.A, o.M1, b), ""
+		}
+		nh := 0
+		for _, t1 := range trs {
+			for _, t2 := range trs {
+				diff := 0
+				what := ""
+				if t1.p != t2.p {
+					diff++
+					what = "password"
+				}
+				if t1.a != t2.a {
+					diff++
+					what = "salt1"
+				}
+				if t1.b != t2.b {
+					diff++
+					what = "salt2"
+				}
+				if diff != 1 {
+					continue
+				}
+				id := fmt.Sprintf("history p%d/s1.%d/s2.%d then p%d/s1.%d/s2.%d", t1.p, t1.a, t1.b, t2.p, t2.a, t2.b)
+				rep := map[string]any{"case": id}
+				nh++
+				run.Eval(id, true)
+				if ok, why := ask(t1, pws[t1.p]); !ok {
+					run.Violation("history|first-call|right-password-rejected", id+": first call: "+why, rep)
+					continue
+				}
+				if ok, why := ask(t2, pws[t2.p]); !ok {
+					run.Violation("history|right-password-rejected|after-a-call-with-another-"+what, id+": the answer for the right password of the second call is rejected "+why, rep)
+				}
+				if ok, _ := ask(t2, pws[1-t2.p]); ok {
+					run.Violation("history|wrong-password-accepted|after-a-call-with-another-"+what, id+": the answer for another password is accepted", rep)
+				}
+			}
+		}
+		run.Set("two_call_histories", nh)
+	}
 	// bad B, empty password
 	g := groups[0]
 	v := verifier(g, passwords[0], salts[0])
